@@ -73,3 +73,15 @@ pub fn gen_intervals(rng: &mut Rng, n: usize, max: u64, allow_zero_len: bool) ->
     }
     v
 }
+
+/// the k-th permutation of [0,1,2,3] (k mod 24)
+pub fn permutation4(k: u64) -> [usize; 4] {
+    let mut items = vec![0usize, 1, 2, 3];
+    let mut k = (k % 24) as usize;
+    let mut out = [0usize; 4];
+    for (i, f) in [6usize, 2, 1, 1].iter().enumerate() {
+        let idx = k / f; k %= f;
+        out[i] = items.remove(idx.min(items.len() - 1));
+    }
+    out
+}
